@@ -397,12 +397,12 @@ impl<'a> Parser<'a> {
                 }
                 'M' => {
                     self.consume('M')?;
-                    size = size.checked_mul(1024 * 1024).ok_or_else(|| {
-                        ESpecError::InvalidNumber {
-                            position: self.pos,
-                            error: "Block size too large".to_string(),
-                        }
-                    })?;
+                    size =
+                        size.checked_mul(1024 * 1024)
+                            .ok_or_else(|| ESpecError::InvalidNumber {
+                                position: self.pos,
+                                error: "Block size too large".to_string(),
+                            })?;
                 }
                 'G' | 'T' | 'P' => {
                     return Err(ESpecError::InvalidUnit(unit));
